@@ -92,7 +92,7 @@ CHECKS = {
              "configurations (threads 2-3, checkpoint interval 1-3/auto, GVT period 0/never) + 50 (thorough 3000) grammar models at p=0: "
              "end state, every committed event and state hash, state after every rollback equal the sequential reference.",
         note="Call-granularity interleavings; vmodel grammar; <=4 LPs, <=3 threads; sequentially consistent memory."),
-    "C02": dict(engine="rsched", technique="preemption/deviation-bounded exhaustive exploration of the real runtime under a deterministic scheduler (fork per execution, delay-bounded levels) with 2-3 symbol-renamed copies of the core and an in-process MPI exploring delivery deviations",
+    "C02": dict(engine="rsched", technique="preemption/deviation-bounded exhaustive exploration of the real runtime under a deterministic scheduler (fork per execution, delay-bounded levels) with 2-3 symbol-renamed copies of the core and an in-process MPI exploring delivery deviations; plus explicit-state search (complete-state digest, every wire/local delivery order x every legal GVT announcement) over the real process_msg()/mpi.c send-receive step functions with the LPs on 2 nodes (h_proc rm=1)",
         level="model_checking", design_ref="DESIGN.md 4/C02",
         text="2 ranks x 1-2 threads (thorough also 3 ranks): all executions with <=1 scheduling deviation and <=1 MPI deviation (delay, "
              "inter-sender reordering so that anti-messages overtake, delayed collective completion; d<=2 on one model): same oracles as "
@@ -110,7 +110,7 @@ CHECKS = {
              "below it queued or in flight at the moment it is told; plus a stateful complete-state search of gvt.c + the real queue "
              "under a cyclic main-loop-shaped driver (h_gvt; thorough: closed state graph of the smallest configuration).",
         note="Sequentially consistent interleavings; relaxed orderings not modelled; rank-level colouring under C02."),
-    "C06": dict(engine="rsched", technique="preemption/deviation-bounded exhaustive exploration of the real runtime under a deterministic scheduler (fork per execution, delay-bounded levels) with the message flag words and queue atomics as scheduling points (incl. a build in which plain accesses to shared static storage are scheduling points); buffer life-cycle monitor",
+    "C06": dict(engine="rsched", technique="preemption/deviation-bounded exhaustive exploration of the real runtime under a deterministic scheduler (fork per execution, delay-bounded levels) with the message flag words and queue atomics as scheduling points (incl. a build in which plain accesses to shared static storage are scheduling points); buffer life-cycle monitor; plus explicit-state search (complete-state digest, every wire/local delivery order x every legal GVT announcement) over the real process_msg()/mpi.c send-receive step functions with the LPs on 2 nodes (h_proc rm=1)",
         level="model_checking", design_ref="DESIGN.md 4/C06",
         text="Cancellation racing with extract/process/rollback/re-queue (all four positions observed), cascades, 40-byte payloads, remote "
              "cancellation incl. early anti-messages on 2 ranks: no double/early release, no use after release, exactly-once effects via "
